@@ -153,3 +153,7 @@ def run(chk):
     run_kernels(chk, items)
     L1m.settle(chk, [o for o in chk.obs if o.name.startswith("Point.SetBytes")], lambda: decode_battery(chk.seed), "Point.SetBytes")
     chk.samples = [o.j() for o in chk.obs if o.name.startswith("Point.SetBytes")][:6]
+
+
+def safety_net(chk):
+    return decode_battery(chk.seed)
